@@ -48,12 +48,6 @@ structure PCall where
 def PCall.Ok (c : PCall) : Prop :=
   NoWs c.text ∧ c.text ≠ [] ∧ ∀ r, NoWs r → P (.ref R.Call) (c.text ++ r) r c.evs
 
-theorem joinWith_cons (sep x : List Char) (xs : List (List Char)) :
-    joinWith sep (x :: xs) = x ++ xs.flatMap (sep ++ ·) := by
-  induction xs generalizing x with
-  | nil => simp [joinWith]
-  | cons y ys ih => simp [joinWith, ih]
-
 /-- `(comma Call)*` on the remaining children, up to a tail on which `comma Call` fails. -/
 theorem star_children (cs : List PCall) (hok : ∀ c ∈ cs, c.Ok) (T : List Char) (hT : NoWs T)
     (hfail : F (.seq (.ref R.comma) (.ref R.Call)) T) :
